@@ -13,8 +13,11 @@ FIND_KINDS = ['boolop_value', 'ifexp_propagate', 'portname', 'narrow', 'ifexp_cl
 
 
 class Gen:
-    def __init__(self, rng, name, flavour='plain', kind=None):
+    def __init__(self, rng, name, flavour='plain', kind=None, open_ids=None):
         self.r = rng
+        # ids of the findings still open in known_findings/C02.json: a 'plain' program avoids their constructs; once a finding is
+        # repaired in /repo (status 'fixed') its construct becomes part of the plain grammar
+        self.open_ids = set(open_ids) if open_ids is not None else {'C02-ifexp', 'C02-cmp-rhs', 'C02-narrow'}
         self.name = name
         self.flavour = flavour
         self.kind = kind or ('clock' if rng.random() < 0.7 else 'propagate')
@@ -89,6 +92,8 @@ class Gen:
         if c < 0.86: self.count('~'); return '(~%s & %s)' % (a, self.mask())
         if c < 0.88: self.count('neg'); return '((-%s) & %s)' % (a, self.mask())
         if c < 0.93: self.count('cmp_value'); return '(%s)' % self.cmp(d - 1)
+        if c < 0.96 and 'C02-ifexp' not in self.open_ids:
+            self.count('ifexp'); return '(%s if %s else %s)' % (a, self.cond(d - 1), self.val(d - 1))
         self.count('not_value'); return '(not %s)' % self.cond(d - 1)
 
     def cmp(self, d):
@@ -96,6 +101,8 @@ class Gen:
         self.count('cmp')
         # the right operand is a leaf or a sum (a bitwise operator there is a known finding: see 'find:cmp_rhs')
         b = '(%s + %s)' % (self.val(d), self.leaf(small=True)) if self.r.random() < 0.4 else self.leaf(small=self.r.random() < 0.5)
+        if 'C02-cmp-rhs' not in self.open_ids and self.r.random() < 0.3:
+            b = '(%s %s %s)' % (self.val(d), self.r.choice(['&', '|', '^']), self.leaf(small=True))
         return '%s %s %s' % (self.val(d), op, b)
 
     def cond(self, d):
@@ -242,21 +249,21 @@ class Gen:
 
 
 def clean(g):
-    """a 'plain' program must not contain a known-finding construct by accident"""
+    """a 'plain' program must not contain the construct of a still-open finding by accident"""
     import ast
     from props import c02_dump
     fn = [n for n in ast.walk(ast.parse(g.src)) if isinstance(n, ast.FunctionDef) and n.name == g.kind][0]
     narrow, cmp_rhs = c02_dump.signatures(fn, {g.port_attr[n]: w for n, w in g.ins + g.outs})
-    return not narrow and not cmp_rhs
+    return not (narrow and 'C02-narrow' in g.open_ids) and not (cmp_rhs and 'C02-cmp-rhs' in g.open_ids)
 
 
-def make_module(rng, n, depth, flavours, prefix='G'):
+def make_module(rng, n, depth, flavours, prefix='G', open_ids=None):
     """returns (module text, [Gen]) for n classes; flavours: list cycled through"""
     gens, parts = [], ['from py4hw.base import Logic\n\n']
     for k in range(n):
         fl = flavours[k % len(flavours)]
         for attempt in range(50):
-            g = Gen(rng, '%s%d' % (prefix, k), fl)
+            g = Gen(rng, '%s%d' % (prefix, k), fl, open_ids=open_ids)
             g.src = g.text(rng.randint(1, depth))
             if fl not in ('plain',) and fl != 'find:narrow' and fl != 'find:cmp_rhs' or fl == 'plain' and clean(g): break
             if fl == 'find:narrow' or fl == 'find:cmp_rhs': break
